@@ -88,7 +88,8 @@ def _make(ctx, spec, nvdim=None, dtype=None):
     unit = gen.pick(rng, ig.UNITS)
     tol = float(gen.pick(rng, [1e-12, 1e-12, 1e-10, 1e-9]))
     mesh = df.Mesh(region=spec.region(tolerance_factor=tol), n=list(n))
-    f = df.Field(mesh, nvdim=nvdim, value=arr, vdims=labels, unit=unit, dtype=arr.dtype)
+    f = gen.via_history(None, df.Field(mesh, nvdim=nvdim, value=arr, vdims=labels, unit=unit,
+                                       dtype=arr.dtype))
     return f, arr, labels, unit, tol
 
 
